@@ -173,7 +173,11 @@ func VC17_Twins() {
 	switch path {
 	case 1:
 		start = "INVITE sip:bob@far.example.net SIP/2.0"
-		routes = []string{"<sip:" + wListenAddr + ":5060;lr>", "<sip:10.0.3.3:5070;lr>"}
+		hop := "10.0.3.3"
+		if rt.Bool("spiral") {
+			hop = "10.0.2.3" // the request spirals: its next hop is the host of the second Via entry (a host the proxy learns from the Via list)
+		}
+		routes = []string{"<sip:" + wListenAddr + ":5060;lr>", "<sip:" + hop + ":5070;lr>"}
 		if rt.Bool("third-route") {
 			routes = append(routes, "<sip:"+rt.Str("ruser", clsUser, 1, L)+"@10.0.3.4;lr>")
 		}
